@@ -66,6 +66,13 @@ type Sched struct {
 	vtime   time.Duration
 
 	run *RunCtx
+
+	tickers []tickerRec
+}
+
+type tickerRec struct {
+	t    *time.Ticker
+	site string
 }
 
 // S is the scheduler of the run currently executing in this process (runs are
@@ -557,6 +564,47 @@ func AfterFunc(site string, d time.Duration, f func()) *time.Timer {
 		return time.AfterFunc(d, f)
 	}
 	return time.AfterFunc(d, func() { Go(site, f) })
+}
+
+// NewTicker mirrors time.NewTicker and remembers the ticker, so that a leak
+// oracle can ask whether it still ticks after its owner was closed.
+//
+//go:norace
+func NewTicker(site string, d time.Duration) *time.Ticker {
+	t := time.NewTicker(d)
+	if s := S; s != nil {
+		s.lock()
+		s.tickers = append(s.tickers, tickerRec{t, site})
+		s.unlock()
+	}
+	return t
+}
+
+// TickingTickers drains every recorded ticker, lets `wait` of virtual time
+// pass and reports the creation sites of those that produced a tick.
+//
+//go:norace
+func TickingTickers(wait time.Duration) []string {
+	s := S
+	s.lock()
+	ts := append([]tickerRec(nil), s.tickers...)
+	s.unlock()
+	for _, r := range ts {
+		select {
+		case <-r.t.C:
+		default:
+		}
+	}
+	Sleep("tickers.wait", wait)
+	var out []string
+	for _, r := range ts {
+		select {
+		case <-r.t.C:
+			out = append(out, r.site)
+		default:
+		}
+	}
+	return out
 }
 
 // Choose lets harness code draw from the run's tape. 0 is the benign choice.
